@@ -28,7 +28,7 @@ type AType struct { // abstract types.SemType value
 }
 type structVal map[string]Val // composite literal with field keys
 type nilVal struct{}
-type errVal struct{}           // a non-nil error
+type errVal struct{} // a non-nil error
 type unknownVal struct{ Why string }
 type listVal []Val // composite literal of constants
 
